@@ -29,7 +29,7 @@ SCALES = [1, 2 ** 10, 2 ** 20 + 2, 2 ** 31 + 6]
 AMULS = [1, 2 ** 13 + 1, 0x7f910a, 2 ** 41]
 OPT_LINES = ["Extras", "Private_Hugetlb", "ProtectionKey", "THPeligible", "VmFlags"]
 MEM_FIELDS = ["rss", "vms", "shared", "text", "lib", "data", "dirty", "uss", "pss", "swap"]
-BAD_TYPES = ["", "RSS", "wired", "path", "rss "]
+BAD_TYPES = ["", "RSS", "wired", "path", "rss ", "count", "index", "_fields", "_asdict", "__doc__"]   # (the last five: attributes of every named tuple)
 NUM_FIELDS = ["rss", "size", "pss", "shared_clean", "shared_dirty", "private_clean",
               "private_dirty", "referenced", "anonymous", "swap"]
 KB_LINES = ["Size", "Rss", "Pss", "Shared_Clean", "Shared_Dirty", "Private_Clean",
@@ -120,6 +120,8 @@ def query(ps, types):
             pct[t] = pr.memory_percent(t)
         except ValueError:
             pct[t] = "ValueError"
+        except Exception as ex:  # noqa: BLE001
+            pct[t] = "raised %s" % type(ex).__name__
     return {"info": dict(info._asdict()), "full": dict(full._asdict()),
             "maps": [dict(r._asdict()) for r in un], "grouped": [dict(r._asdict()) for r in gr],
             "percent": pct}
